@@ -1,6 +1,7 @@
 import Driver.Sexp
 import Driver.C01
 import Driver.C02
+import Driver.C03
 import Driver.C04
 import Driver.C05
 import Driver.C06
@@ -28,6 +29,7 @@ def dispatch (op : String) (args : List Sx) : Option Sx :=
   if op == "echo" then echo args
   else if op.startsWith "c01." then C01.handle op args
   else if op.startsWith "c02." then C02.handle op args
+  else if op.startsWith "c03." then C03.handle op args
   else if op.startsWith "c04." then C04.handle op args
   else if op.startsWith "c05." then C05.handle op args
   else if op.startsWith "c06." then C06.handle op args
